@@ -1,15 +1,23 @@
 /-
 C17 - edit scripts are irredundant and linearly bounded.
 
-Proved (for every matching handed to the generator, every option set, any size): at most
-|R| inserts (element or comment), |R| renames, |R| text updates and |R| tail updates.
+Proved (any size, every option set): for every matching handed to the generator at most
+|R| inserts (element or comment), |R| renames, |R| text updates and |R| tail updates; for
+every one-to-one matching (what `match()` returns, C07) at most 2|R| moves (one per visited
+right node plus one per child of a visited right node: the aligned children of a node are
+mapped one-to-one into the children of its partner) and at most |L| deletes (the number of
+partnerless nodes of the working copy never grows: inserted nodes are matched at once), and
+no node the script creates is deleted by it (`C17_created_never_deleted`, stated on the
+strict replay of the script: every `deleteNode` hits a node whose id is below the first
+fresh id).  `Proofs/Counts2.lean`.
 Not proved (decided per run by the counting oracle and the change-detecting strict replay
-of the real script): deletes <= |L|, moves <= 2|R|, the attribute-action bound (these need
-the injectivity of the matching threaded through the generator), "no created node is
-deleted", and "every action changes the document" (known finding R1 is the value-level
-exception: moves past value-identical siblings).
+of the real script): the attribute-action bound summed over the document (per node pair
+the actions are attribute actions on that node, `C17_attr_phase_only_attr_actions`), and
+"every action changes the document" (known finding R1 is the value-level exception: moves
+past value-identical siblings).
 -/
 import XmlDiffModel.Proofs.Counts
+import XmlDiffModel.Proofs.Counts2
 
 namespace XmlDiffModel
 
@@ -20,6 +28,37 @@ theorem C17_bounds_partial (qn : QName) (cfg : Cfg) (L R : Tree) (M : List (Nat 
     script.countP isIns ≤ Tree.size R ∧ script.countP isRen ≤ Tree.size R ∧
       script.countP isTxt ≤ Tree.size R ∧ script.countP isTail ≤ Tree.size R :=
   scriptGen_counts qn cfg L R M fresh script final hR h
+
+/-- At most `2·|R|` moves and at most `|L|` deletes, for every one-to-one matching. -/
+theorem C17_moves_deletes_bounds (qn : QName) (cfg : Cfg) (L R : Tree) (M : List (Nat × Nat)) (fresh : Nat)
+    (script : List Action) (final : Tree) (hL : L.WF) (hR : R.WF)
+    (hfL : ∀ i ∈ Tree.ids L, i < fresh) (hM : Chw.GoodMatching L R M)
+    (hA : ∀ x ∈ Tree.bfs R, (keys x.payload.attrs).Nodup)
+    (h : scriptGen qn cfg L R M fresh = .ok (script, final)) :
+    script.countP C17.isMove ≤ 2 * Tree.size R ∧ script.countP isDel ≤ Tree.size L :=
+  C17.scriptGen_counts2 qn cfg L R M fresh script final hL hR hfL hM hA h
+
+/-- No node created by the script is later deleted by it: in the strict replay of the script from the left
+document (created nodes get the ids `fresh`, `fresh + 1`, …) every `deleteNode` action hits a node with an id below
+`fresh`, i.e. a node of the original left document. -/
+theorem C17_created_never_deleted (qn : QName) (cfg : Cfg) (L R : Tree) (M : List (Nat × Nat)) (fresh : Nat)
+    (script : List Action) (final : Tree) (hL : L.WF) (hR : R.WF) (hdisj : ∀ i ∈ Tree.ids L, i ∉ Tree.ids R)
+    (hfL : ∀ i ∈ Tree.ids L, i < fresh) (hfR : ∀ i ∈ Tree.ids R, i < fresh) (hM : Chw.GoodMatching L R M)
+    (hA : ∀ x ∈ Tree.bfs R, (keys x.payload.attrs).Nodup)
+    (hC : ∀ x ∈ Tree.bfs R, x.payload.kind = .comment → x.payload.tag = [])
+    (h : scriptGen qn cfg L R M fresh = .ok (script, final)) :
+    ∀ i ∈ C17.delTargets qn ⟨L, fresh⟩ script, i < fresh :=
+  C17.scriptGen_created_not_deleted qn cfg L R M fresh script final hL hR hdisj hfL hfR hM hA hC h
+
+/-- Non-vacuity of `delTargets`: a script that inserts a node and deletes it again is flagged (the created node has
+id 20 = `fresh`), so the theorem above excludes something. -/
+example :
+    let e (t : String) : Payload := ⟨.elem, t.toList, [], none, none⟩
+    let L : Tree := .node 0 (e "a") []
+    C17.delTargets QName.plain ⟨L, 20⟩
+      [.insertNode [⟨.name "a".toList, some 1⟩] "b".toList 0,
+       .deleteNode [⟨.name "a".toList, some 1⟩, ⟨.name "b".toList, some 1⟩]] = [20] := by
+  decide +kernel
 
 /-- Per node pair, `update_node_attr` emits no insert / rename / text / tail action. -/
 theorem C17_attr_phase_only_attr_actions (ign : List Str) (path : Path) (las ras : Attrs)
